@@ -1,5 +1,5 @@
 (* C03 - No silent corruption: 'complete' always means the sender's exact bytes. *)
-From FluteV Require Import Model.ObjRecv Model.Recv Spec.RecvSpec Proofs.RecvProofs Proofs.C09Full Proofs.C02Full.
+From FluteV Require Import Model.ObjRecv Model.Recv Spec.RecvSpec Proofs.RecvProofs Proofs.C09Full Proofs.C02Full Proofs.C02RS.
 Open Scope N_scope.
 
 (* Object-level statement, proved for the No-Code scheme without content encoding (Proofs/C02Full.v):
@@ -54,4 +54,81 @@ Example C03_example_partial_reception :
   forallb (genuine_pkt ex_oti ex_content) (firstn 3 ex_pkts) = true
   /\ summary 7 (receive env_ok 1 ex_files None 7 1000 (firstn 3 ex_pkts)) = (Receiving, [CallOpen true])
   /\ summary 7 (receive env_ok 1 ex_files None 7 1000 ex_pkts_flag_first) = (Interrupted, [CallOpen true; CallInterrupted]).
+Proof. vm_compute. repeat split. Qed.
+
+(* ---------------- Reed-Solomon GF(2^8): FEC 5 (FRS28) and FEC 129 (FRS28US), Proofs/C02RS.v ----------------
+   Same setting as C03_nocode_complete_implies_exact, for ANY list of genuine source and repair packets, whatever
+   the parity, max_size_allocated, the number of blocks, write() and the MD5 are.  The decoder is an oracle; the
+   EXPLICIT, TRUSTED hypothesis is rs_oracle_sound E oti content rep toi: called for a block with at least k genuine
+   shards, the decoder either fails or answers the padded source block.  With fewer than k shards the model does not
+   call it; the hypothesis is needed: C03_rs_wrong_decoder_corrupts. *)
+Theorem C03_rs_complete_implies_exact : forall E oti content rep toi max fid files inst md5 pkts,
+  let L := lenN_ content in
+  rs_scheme_ok oti L -> fdt_entry_for files inst toi oti L md5 -> writer_accepts E toi ->
+  rs_oracle_sound E oti content rep toi ->
+  Forall (fun p => rs_genuine_pkt oti content rep p = true) pkts ->
+  let (o, c) := receive E fid files inst toi max pkts in
+  forall w, is_prefix (written (calls_of w (c_log c))) content = true
+            /\ P_C03_writer content true (calls_of w (c_log c)) = true.
+Proof. exact rs_safety. Qed.
+Print Assumptions C03_rs_complete_implies_exact.
+
+Theorem C03_rs_oracle_sound_statement : forall E oti content rep toi,
+  rs_oracle_sound E oti content rep toi <->
+  (forall s size sh d, s < nb_blocks_of oti (lenN_ content) ->
+     rs_k oti (lenN_ content) s <= N.of_nat (length sh) ->
+     NoDup (map fst sh)
+     /\ Forall (fun p => fst p < rs_k oti (lenN_ content) s + ro_parity oti
+                         /\ snd p = rs_symbol oti content rep s (fst p)) sh ->
+     e_fec E toi (ro_fec oti) s (rs_k oti (lenN_ content) s) (ro_e oti) size sh = Some d ->
+     d = rs_block oti content s).
+Proof. intros. reflexivity. Qed.
+Print Assumptions C03_rs_oracle_sound_statement.
+
+Theorem C03_rs_mds_decoder_is_sound : forall E oti content rep toi,
+  rs_oracle_mds E oti content rep toi -> rs_oracle_sound E oti content rep toi.
+Proof. exact rs_oracle_mds_sound. Qed.
+Print Assumptions C03_rs_mds_decoder_is_sound.
+
+(* non-vacuity: the toy XOR decoder is sound; a strict subset (block 1 only) writes nothing *)
+Example C03_rs_example_partial_reception :
+  rs_oracle_sound env_xor exr_oti exr_content exr_rep 7
+  /\ forallb (rs_genuine_pkt exr_oti exr_content exr_rep) (firstn 3 exr_pkts) = true
+  /\ summary 7 (receive env_xor 1 exr_files None 7 1000 (firstn 3 exr_pkts)) = (Receiving, [CallOpen true]).
+Proof. split; [exact (rs_oracle_mds_sound _ _ _ _ _ xor_dec_mds)|]. vm_compute. repeat split. Qed.
+
+(* the hypothesis is needed: genuine packets, a decoder answering a wrong block, no MD5: wrong bytes, Completed *)
+Example C03_rs_wrong_decoder_corrupts :
+  forallb (rs_genuine_pkt exr_oti exr_content exr_rep) exr_pkts = true
+  /\ summary 7 (receive env_bad 1 exr_files None 7 1000 exr_pkts)
+     = (Completed, [CallOpen true; CallWrite [9; 9; 9; 9] true; CallWrite [9] true; CallComplete]).
+Proof. exact rs_wrong_decoder_corrupts. Qed.
+
+(* ---------------- RaptorQ (FEC 6) and Raptor (FEC 1), Proofs/C02RS.v ----------------
+   Safety for any genuine packets - whatever their sizes, the scheme-specific information and the number of symbols
+   of a block are - under the EXPLICIT, TRUSTED hypothesis fq_oracle_sound (given genuine symbols with distinct ESI -
+   Raptor: zero-padded to ceil(block length / k) as the block decoder stores them, RaptorQ: all of E bytes, the others
+   being discarded (fixes D10) - the decoder fails or answers the block of the object, padded only if it is the last;
+   unfolded in C02_fq_oracle_statements). *)
+Theorem C03_fq_complete_implies_exact : forall E oti content enc toi max fid files inst md5 pkts,
+  let L := lenN_ content in
+  fq_scheme_ok oti L -> fdt_entry_for files inst toi oti L md5 -> writer_accepts E toi ->
+  fq_oracle_sound E oti content enc toi ->
+  Forall (fun p => fq_genuine_pkt oti content enc p = true) pkts ->
+  let (o, c) := receive E fid files inst toi max pkts in
+  forall w, is_prefix (written (calls_of w (c_log c))) content = true
+            /\ P_C03_writer content true (calls_of w (c_log c)) = true.
+Proof. exact fq_safety. Qed.
+Print Assumptions C03_fq_complete_implies_exact.
+
+Example C03_fq_example_partial_reception :
+  forallb (fq_genuine_pkt exq_oti exr_content exq_enc) (firstn 4 exq_pkts) = true
+  /\ summary 7 (receive env_sys 1 exq_files None 7 1000 (firstn 4 exq_pkts)) = (Receiving, [CallOpen true]).
+Proof. vm_compute. repeat split. Qed.
+
+(* RaptorQ: a symbol whose size is not E is discarded, nothing wrong is written; parameters the decoder refuses: Errored,
+   nothing written *)
+Example C03_fq_example_discarded_and_refused :
+  summary 7 (receive env_sys 1 exq_files None 7 1000 exf_pkts) = (Receiving, [CallOpen true; CallWrite [1; 2; 3; 4] true])
+  /\ summary 7 (receive env_sys 1 (exd_files (1, 1, 4)) None 7 1000 exq_pkts) = (Errored, [CallOpen true; CallError]).
 Proof. vm_compute. repeat split. Qed.
